@@ -102,6 +102,15 @@ def sumSpec64 (fs fm fe gs gm ge : BitVec 64) : BitVec 64 :=
   let N := if fs = gs then 4 * fm.toNat * 2^sh + 4 * gm.toNat else 4 * fm.toNat * 2^sh - 4 * gm.toNat
   if N = 0 then 0#64 else fs ||| BitVec.ofNat 64 (roundInt64 N (ge.toInt - 2))
 
+/-- The correctly rounded product of two finite non-zero binary64 values given unpacked:
+`(±fm·2^(fe−52))·(±gm·2^(ge−52)) = ±(fm·gm)·2^((fe+ge−52)−52)`, sign = xor of the signs. -/
+def prodSpec64 (fs fm fe gs gm ge : BitVec 64) : BitVec 64 :=
+  (fs ^^^ gs) ||| BitVec.ofNat 64 (roundInt64 (fm.toNat * gm.toNat) (fe.toInt + ge.toInt - 52))
+
+/-- `⌊m·2^(e−52)⌋`: the integer part of the magnitude of an unpacked value -/
+def truncMag64 (m : Nat) (e : Int) : Nat :=
+  if 52 ≤ e then m * 2^(e - 52).toNat else m / 2^(52 - e).toNat
+
 /-! ## The reference semantics: IEEE-754 values as rationals and round-to-nearest-even
 
 Used only to STATE the full property (`ieee754_statement` in Props/C05.lean) and in
